@@ -56,6 +56,7 @@ _HEAT = {
     "self.__next_start": ("int", "s.nextStart"),
     "self.__setpoint": ("int", "s.setpoint"),
     "self.__min_temp": ("int", "s.minTemp"),
+    "self.__next_start_hour": ("int", "s.startHour"),
     "Heating.HYSTERESIS_DOWN": ("int", "c.hystDown"),
     "Heating.HYSTERESIS_UP": ("int", "c.hystUp"),
     "Heating.HYSTERESIS_MIN_TEMP": ("int", "c.hystMin"),
@@ -135,6 +136,14 @@ SPECS = [
     dict(lean="heatingReady", file="controller/heating.py", cls="Heating", method="filtration_ready_for_heating", returns=True, params="(isEcoWaiting isEcoNormal : Bool)",
          atoms={"@Filtration": ("obj", "Filtration"), "@Filtration.is_eco_waiting().get()": ("bool", "isEcoWaiting"),
                 "@Filtration.is_eco_normal().get()": ("bool", "isEcoNormal")}),
+    dict(lean="heatingSetNextStart", file="controller/heating.py", cls="Heating", method="__set_next_start", params="(s : Poupool.Heating.St) (now : Int)",
+         atoms=_HEAT, tracks=["self.__next_start"]),
+    dict(lean="heatingSetpoint", file="controller/heating.py", cls="Heating", method="setpoint", params="(s : Poupool.Heating.St) (now v : Int)",
+         atoms={**_HEAT, "value": ("int", "v")}, tracks=["self.__next_start", "self.__setpoint"]),
+    dict(lean="heatingStartHour", file="controller/heating.py", cls="Heating", method="start_hour", params="(s : Poupool.Heating.St) (now v : Int)",
+         atoms={**_HEAT, "value": ("int", "v")}, tracks=["self.__next_start", "self.__next_start_hour"]),
+    dict(lean="heatingExit", file="controller/heating.py", cls="Heating", method="on_exit_heating", params="(s : Poupool.Heating.St) (now : Int) (allow : Bool)",
+         atoms=_HEAT, tracks=["self.__next_start"], effects={r"self\.__total_duration\.stop\(\)": "duration stop"}),
     dict(lean="heatingHeatingPoll", file="controller/heating.py", cls="Heating", method="do_repeat_heating",
          params="(c : Poupool.Heating.Cfg) (s : Poupool.Heating.St) (pool air : Option Int)", atoms=_HEAT),
 ]
@@ -155,7 +164,8 @@ ROLES = {
     "Swim": {**_COMMON, "__timer": ("setter", "timer"), "__speed": ("setter", "speed")},
     "Heating": {**_COMMON, "__enable": ("setter", "enable"), "__setpoint": ("setter", "setpoint"), "__min_temp": ("setter", "min_temp"),
                 "__next_start": ("init_value", "datetime.now()"), "__read_temperature": ("method_containing", ".get_temperature("),
-                "__set_next_start": ("method_assigning", "__next_start")},
+                "__set_next_start": ("method_assigning", "__next_start"),
+                "__next_start_hour": ("setter", "start_hour"), "__total_duration": ("init_call", "Duration")},
 }
 
 
@@ -239,8 +249,9 @@ class _Canon(ast.NodeTransformer):
 # trees
 # ------------------------------------------------------------------------------------------------------------------
 class Leaf:
-    def __init__(self, effects):
+    def __init__(self, effects, finals=None):
         self.effects = list(effects)
+        self.finals = finals  # Lean Int terms of the tracked attributes at the end of this path (None: not tracked)
 
 
 class Ite:
@@ -356,6 +367,13 @@ class Exec:
                 reads |= r
                 parts.append(f"{t} * {US[kw.arg]}")
             return "(" + " + ".join(parts) + ")", reads
+        if (isinstance(node, ast.Call) and isinstance(node.func, ast.Attribute) and node.func.attr == "replace" and not node.args
+                and sorted(k.arg for k in node.keywords) == ["hour", "microsecond", "minute", "second"]
+                and all(isinstance(k.value, ast.Constant) and k.value.value == 0 for k in node.keywords if k.arg != "hour")):
+            # <instant>.replace(hour=H, minute=0, second=0, microsecond=0): H o'clock of the same day (instants in µs since a midnight)
+            t, rt = self.term(node.func.value, env)
+            hh, rh = self.term([k.value for k in node.keywords if k.arg == "hour"][0], env)
+            return f"(({t} - {t} % {US['days']}) + {hh} * {US['hours']})", rt | rh
         if isinstance(node, ast.BinOp) and isinstance(node.op, (ast.Add, ast.Sub)):
             a, ra = self.term(node.left, env)
             b, rb = self.term(node.right, env)
@@ -436,6 +454,16 @@ class Exec:
 
         return ast.unparse(R().visit(copy.deepcopy(node)))
 
+    def leaf(self, env, extra=()):
+        tracks = self.ctx.spec.get("tracks")
+        finals = None
+        if tracks:
+            finals = []
+            for key in tracks:
+                b = env.get("attrs", {}).get(key) or self.ctx.atoms.get(key)
+                finals.append(self.subst(b[1], env) if b is not None and b[0] == "int" else "0 /- untracked -/")
+        return Leaf(list(env["effects"]) + list(extra), finals)
+
     def lookup(self, node, env):
         """binding (kind, lean) of an expression that is a written attribute, an atom or a local; None otherwise"""
         s = self.key_of(node, env)
@@ -458,10 +486,10 @@ class Exec:
         for var in reads:
             known = env["opt"].get(var)
             if known == "none":
-                return Leaf(env["effects"] + ["raise TypeError"])
+                return self.leaf(env, ["raise TypeError"])
             if known is None:
                 rest = [v for v in reads if v != var]
-                return MatchOpt(var, Leaf(env["effects"] + ["raise TypeError"]), self.with_opts(rest, self.know(env, var, "some"), k))
+                return MatchOpt(var, self.leaf(env, ["raise TypeError"]), self.with_opts(rest, self.know(env, var, "some"), k))
         return k(env)
 
     def know(self, env, var, what):
@@ -520,7 +548,7 @@ class Exec:
         if not stmts:
             if env.get("k") is not None:  # end of an inlined private helper: back in the caller
                 return env["k"](env)
-            return Leaf(env["effects"])
+            return self.leaf(env)
         st, rest = stmts[0], stmts[1:]
         try:
             if isinstance(st, ast.Return) and env.get("k") is not None:
@@ -530,21 +558,27 @@ class Exec:
             if isinstance(st, ast.Return):
                 if st.value is not None:
                     if not self.ctx.spec.get("returns"):
-                        return Leaf(env["effects"] + [f"opaque:{unp(st)}"])
+                        return self.leaf(env, [f"opaque:{unp(st)}"])
                     if self.ctx.spec.get("returns") == "value":
                         # the helper hands a value on: which atom it is (anything computed on the way is visible in the name)
                         b = self.lookup(st.value, env)
                         if b is None:
-                            return Leaf(env["effects"] + [f"opaque:{unp(st)}"])
+                            return self.leaf(env, [f"opaque:{unp(st)}"])
                         return Leaf(env["effects"] + [f"return {b[1]}"])
-                    return self.branch(st.value, env, lambda e: Leaf(e["effects"] + ["return True"]), lambda e: Leaf(e["effects"] + ["return False"]))
-                return Leaf(env["effects"])
+                    return self.branch(st.value, env, lambda e: self.leaf(e, ["return True"]), lambda e: self.leaf(e, ["return False"]))
+                return self.leaf(env)
             if isinstance(st, ast.Raise):
                 if unp(st) in ("raise StopRepeatException", "raise StopRepeatException()"):
-                    return Leaf(env["effects"] + ["stop repeat"])
-                return Leaf(env["effects"] + [f"opaque:{unp(st)}"])
+                    return self.leaf(env, ["stop repeat"])
+                return self.leaf(env, [f"opaque:{unp(st)}"])
             if isinstance(st, ast.If):
                 return self.branch(st.test, env, lambda e: self.run(list(st.body) + rest, e), lambda e: self.run(list(st.orelse) + rest, e))
+            if isinstance(st, ast.AugAssign) and isinstance(st.op, (ast.Add, ast.Sub)) and isinstance(st.target, (ast.Name, ast.Attribute)):
+                import copy
+                load = copy.deepcopy(st.target)
+                load.ctx = ast.Load()
+                st = ast.Assign(targets=[st.target], value=ast.BinOp(left=load, op=st.op, right=st.value))
+                ast.fix_missing_locations(st)
             if isinstance(st, ast.Assign) and len(st.targets) == 1 and isinstance(st.targets[0], (ast.Name, ast.Attribute)):
                 tgt = st.targets[0]
                 is_attr = isinstance(tgt, ast.Attribute)
@@ -612,6 +646,15 @@ def emit(tree, ind):
     if isinstance(tree, MatchOpt):
         return f"{pad}match {tree.var} with\n{pad}| none =>\n{emit(tree.none, ind + 2)}\n{pad}| some {tree.var}_v =>\n{emit(tree.some, ind + 2)}"
     raise TypeError(tree)
+
+
+def emit_finals(tree, ind):
+    pad = "  " * ind
+    if isinstance(tree, Leaf):
+        return pad + "[" + ", ".join(tree.finals or []) + "]"
+    if isinstance(tree, Ite):
+        return f"{pad}if {tree.cond} then\n{emit_finals(tree.t, ind + 1)}\n{pad}else\n{emit_finals(tree.f, ind + 1)}"
+    return f"{pad}match {tree.var} with\n{pad}| none =>\n{emit_finals(tree.none, ind + 2)}\n{pad}| some {tree.var}_v =>\n{emit_finals(tree.some, ind + 2)}"
 
 
 def leaves(tree):
@@ -683,6 +726,11 @@ def translate_all():
         out.append(f"def {name} {spec['params']} : List String :=")
         out.append(emit(tree, 1))
         out.append("")
+        if spec.get("tracks") and all(l.finals is not None for l in lv):
+            out.append(f"/-- {spec['cls']}.{spec['method']}: the values of {', '.join(spec['tracks'])} when the method returns -/")
+            out.append(f"def {name}Final {spec['params']} : List Int :=")
+            out.append(emit_finals(tree, 1))
+            out.append("")
     out.append("end Poupool.Gen.Decisions")
     return "\n".join(out) + "\n", report
 
